@@ -2,6 +2,8 @@ import CC.Lemmas.Leb
 import CC.Lemmas.Comb
 import CC.Lemmas.Rev
 import CC.Spec.Cover
+import CC.Lemmas.Cover
+import CC.Lemmas.Kem
 /-! # C02 — unauthorized keys never recover a secret -/
 
 namespace CC.Props.C02
@@ -19,6 +21,36 @@ theorem decaps_none (usk : Usk) (enc : XEnc) (h : ¬ CanOpen usk enc) : decaps u
 /-- a key of another authority never opens -/
 theorem foreign_key_none (usk : Usk) (enc : XEnc) (h : usk.auth ≠ enc.auth) : decaps usk enc = none :=
   decaps_none usk enc (fun hc => h hc.1)
+
+/-- **C02, end to end on the model.** If no conjunction of the encryption policy is covered by the
+user policy, the key generated for the user policy gets *nothing* from the encapsulation — not a
+secret of any value. -/
+theorem unauthorized_gets_nothing (msk : Msk) (hS : msk.structure_.WF) (hd : msk.Distinct) (u e : AP)
+    (hu : Spec.policyWf msk.structure_ u = true) (he : Spec.policyWf msk.structure_ e = true)
+    (ru re : List Right) (hru : msk.structure_.uskRights u = .ok ru) (hre : msk.mpk.structure_.encRights e = .ok re)
+    (n n' : Rng) (usk : Usk) (s : Nat) (x : XEnc)
+    (hk : (uskKeygen msk ru n).1 = .ok usk) (hen : (encaps msk.mpk re n').1 = .ok (s, x))
+    (hcov : Spec.covers msk.structure_ u e = false) : decaps usk x = none := by
+  obtain ⟨ru', re', h1, h2, hiff⟩ := CC.rights_meet_iff_covers hS hu he
+  rw [hru] at h1; cases h1
+  have : msk.mpk.structure_ = msk.structure_ := rfl
+  rw [this, h2] at hre; cases hre
+  refine (keygen_encaps_decaps msk hd ru re n n' usk s x hk hen).2.2 ?_
+  intro hex
+  rw [hiff.1 hex] at hcov
+  cases hcov
+
+/-- a lower hierarchical attribute never opens a higher one: in a hierarchy, `x ≤ y` of the
+specification is the position order, so a clause restricted at `y` does not cover `x` above `y` -/
+theorem lower_never_covers_higher (d : Dim) (hord : d.ordered = true) (x y : String) (i j : Nat)
+    (hx : Spec.pos d x = some i) (hy : Spec.pos d y = some j) (hlt : j < i) : Spec.leq d x y = false := by
+  simp [Spec.leq, hx, hy, hord]; omega
+
+/-- an attribute of an unordered dimension never opens a sibling -/
+theorem sibling_never_covers (d : Dim) (hord : d.ordered = false) (x y : String) (hne : x ≠ y) :
+    Spec.leq d x y = false := by
+  unfold Spec.leq
+  cases Spec.pos d x <;> cases Spec.pos d y <;> simp [hord, hne]
 
 /-- non-vacuity: same right name, different secret (a stale key) -/
 example : decaps
